@@ -71,6 +71,7 @@ Cat ==
   ("trigger_missing"         :> M({"calc"}, "survey", FALSE, "ident")) @@
   ("search_and_from_file"    :> M({"sel1"}, "survey", FALSE, "ident")) @@
   ("selm_choice_space"       :> M({"M"}, "choices", FALSE, "ident")) @@
+  ("selm_choice_space_list_used_before" :> M({"M"}, "choices", FALSE, "ident")) @@      \* (a select_one reads the list first)
   ("choices_missing_list_name_header" :> M({}, "form", FALSE, "ident")) @@
   ("survey_missing_type_header"       :> M({}, "form", FALSE, "ident")) @@
   ("instance_id_clash"       :> M({}, "form", FALSE, "ident")) @@
